@@ -23,12 +23,12 @@ LEVEL_TEXT = {
             "text": "bounded symbolic execution of the real validate_and_store_record / payment_for_us_exists_and_is_still_valid / ProofOfPayment::verify_for / PaymentQuote::{check_is_signed_by_claimed_peer, has_expired}: every combination of the payment conditions on 1..2 quotes, symbolic quote timestamps against a symbolic clock; 'stored only if all seven conditions hold' and 'otherwise rejected, nothing stored' are discharged per path"},
     "C04": {"engine": "symrt (engine D)", "technique": D_TECH, "note": D_NOTE,
             "text": "the three acceptance paths of put_validation.rs executed for every record kind under the content-derived key and under a foreign key: a foreign key is rejected and the store is unchanged"},
-    "C05": {"engine": "symrt (engine D)", "technique": D_TECH, "note": D_NOTE,
+    "C05": {"engine": "symrt (engine D) + kani (engine K)", "technique": D_TECH + "; " + K_TECH + " for get_quorum_value over every n", "note": D_NOTE,
             "text": "one-step inductive symbolic execution of the real quorum accumulation code over symbolic peer and content identities: from any pending read that satisfies the invariant, every reply or terminating event either keeps the invariant or delivers exactly one outcome per caller; a value only with a quorum of distinct peers for identical content that equals the expected value; split reads carry every version"},
     "C06": {"engine": "symrt (engine D)", "technique": D_TECH, "note": D_NOTE + "; the order/duplication part of the quantifier is explored by choice forks (exhaustive within the bound), the solver's share is the two numeric limits",
-            "text": "the whole ant-registers crate transplanted and executed: entry size and entry count are symbolic so that add_op / verify / merge limit consistency is decided for all counts and sizes; authorisation of operations through add_op and verified_merge for every signer / signature / address combination; merge laws and convergence over all delivery orders of a 3-operation pool"},
+            "text": "the whole ant-registers crate transplanted and executed: entry size and entry count are symbolic so that add_op / verify / merge limit consistency is decided for all counts and sizes; authorisation of operations through add_op and verified_merge for every signer / signature / address combination; merge laws and convergence over all delivery orders of two 3-operation pools (distinct entries; the same entry written by two writers)"},
     "C07": {"engine": "symrt (engine D)", "technique": D_TECH, "note": D_NOTE,
-            "text": "scratchpad updates with symbolic 64-bit counters (stored vs delivered) on the update and replication paths decided by the solver; transaction/register unions in both orders; two concurrent deliveries explored under every interleaving of their query round trips and deferred puts"},
+            "text": "scratchpad updates with symbolic 64-bit counters (stored vs delivered) on the update and replication paths decided by the solver; transaction/register unions in both orders; a transaction set and a scratchpad of one owner key (same record key) in both orders; two concurrent deliveries with unrelated symbolic counters explored under every interleaving of their query round trips and deferred puts"},
     "C08": {"engine": "symrt (engine D)", "technique": D_TECH, "note": D_NOTE,
             "text": "bounded symbolic execution of the real replication_fetcher.rs: each fetcher entry point from arbitrary small states with symbolic 256-bit distances, symbolic deadlines and clock; obligations per call (held/in-range/farthest filters, no duplicate fetch, parallel limit, closest first, expiry reporting, completion) and a 2-round bounded progress obligation"},
     "C09": {"engine": "symrt (engine D)", "technique": D_TECH, "note": D_NOTE,
@@ -37,16 +37,16 @@ LEVEL_TEXT = {
             "text": "closeness decisions (sort_peers_by_address/key, get_peers_in_range, get_replicate_candidates, calculate_get_closest_peers) executed symbolically over 256-bit symbolic hashes: output order, k-nearest and range filters compared with the XOR integer by the solver"},
     "C12": {"engine": "kani (engine K)", "technique": K_TECH, "note": "trusted: Kani/CBMC, the stubs listed per harness in evidence.coverage.harnesses (tracing no-ops, fmt::format, rmp decoder in the slicing harnesses); reduced claim: tag table, header size, decoder inverse, slicing logic; full value round trips through serde-derive+rmp are outside",
             "text": "Kani harnesses on the real ant-protocol crate: the RecordKind tag table and decoder over all u32 tags, the rmp-encoded header bytes for all kinds, and panic-freedom / clean failure of the record decoders' slicing logic for all contents of records up to 4 bytes"},
-    "C13": {"engine": "symrt (engine D)", "technique": D_TECH, "note": D_NOTE,
-            "text": "the real PaymentQuote::{has_expired, check_is_signed_by_claimed_peer, hash, historical_verify} and ProofOfPayment::verify_for executed with symbolic timestamps against a symbolic clock (expiry boundary decided by the solver) and an ideal signature scheme; every single-field alteration, key swap and claimed-identity swap must fail verification"},
+    "C13": {"engine": "symrt (engine D) + kani (engine K)", "technique": D_TECH + "; " + K_TECH + " for the signed byte string", "note": D_NOTE + "; Kani part: rmp_serde::to_vec replaced by a fixed-width encoder driven by the real Serialize impl of QuotingMetrics",
+            "text": "the real PaymentQuote::{has_expired, check_is_signed_by_claimed_peer, hash, historical_verify} and ProofOfPayment::verify_for executed with symbolic timestamps against a symbolic clock (expiry boundary decided by the solver) and an ideal signature scheme; every single-field alteration, key swap and claimed-identity swap must fail verification; CBMC decides that PaymentQuote::bytes_for_signing gives different bytes for any two field sets that differ in one signed field"},
     "C15": {"engine": "symrt (engine D)", "technique": D_TECH, "note": D_NOTE,
             "text": "the real chunk_get and get_vault_from_network bodies executed against a model network that returns adversarial replies: data handed back must hash to the requested address; the returned scratchpad must be the owner's, validly signed and the highest valid counter among symbolic counters"},
     "C16": {"engine": "kani (engine K) + symrt (engine D)", "technique": K_TECH + "; " + D_TECH, "note": "trusted: ruint's big-integer algorithms (modelled: u128 stubs in K, division lemma and bounded parse values in D), Kani/CBMC, cvc5 (bv-as-int), z3",
             "text": "checked_add/checked_sub decided by CBMC on fully symbolic 256-bit operands against a carry-chain reference; from_str decided by CBMC for all ASCII strings up to 3 (thorough 4) characters and by symbolic execution for digit templates with symbolic 256-bit values (overflow of units*10^18 + fraction); Display decided for all 256-bit amounts from the formatting requests recorded from the real write!"},
     "C17": {"engine": "kani (engine K)", "technique": K_TECH, "note": "trusted: Kani/CBMC; library loops (hex::decode, serde_json, multiaddr parsing) are replaced or left outside as listed in evidence; transplanted items are copied verbatim from /repo on every run",
             "text": "one Kani harness per parser and decoded size: panics, slice-index errors and arithmetic overflow are the assertions, inputs are symbolic bytes / full integer ranges"},
-    "C18": {"engine": "symrt (engine D)", "technique": D_TECH, "note": D_NOTE + "; the clause on concurrent OS processes replacing the file atomically is outside the claim",
-            "text": "bounded symbolic execution of the real cache_store.rs: operation sequences with symbolic clock advances (expiry and oldest-peer decisions are the solver's), limits / reliability / well-formedness after every clean-up, merge with the on-disk cache, save-load round trip through real serde_json, corrupt files"},
+    "C18": {"engine": "symrt (engine D)", "technique": D_TECH, "note": D_NOTE + "; concurrent writers are modelled as a second process whose whole flush lands between any two file-system operations of the first (finer interleavings of two writers are outside the claim)",
+            "text": "bounded symbolic execution of the real cache_store.rs: operation sequences with symbolic clock advances (expiry and oldest-peer decisions are the solver's), limits / reliability / well-formedness after every clean-up, merge with the on-disk cache, save-load round trip through real serde_json, corrupt files, two processes flushing one file over a POSIX-like file model with a reader loading the file at every moment"},
     "C10": {"engine": "symrt (engine D)", "technique": D_TECH, "note": D_NOTE,
             "text": "bounded symbolic execution of the real record_store.rs / cmd.rs arms: every path of one store operation from small reachable states (capacity 1..3), with 256-bit symbolic hashes and a symbolic responsible range, is decided by the SMT solver; burst, clean-up threshold and restart harnesses"},
 }
